@@ -37,7 +37,7 @@ def units(tier, seed):
             cost = 6
         if spec["family"] == "cyclic":
             cost = 1 + 2 ** max(0, spec["n"] - 12)
-        out.append({"unit": f"{spec['family']}#{spec['id']}", "spec": spec, "cost": cost})
+        out.append({"unit": f"{spec['family']}#{spec['id']}", "spec": spec, "cost": cost, "group": "%s:%d:%d" % ((spec["family"],) + tuple(cat.nk(spec)))})
     return out
 
 
